@@ -52,11 +52,22 @@ def main():
             ran["demo_patched"] = {"exit": rc1, "tail": out1[-600:]}
             print("demo patched exit", rc1)
         if not a.skip_tests:
-            rc2, out2 = sh("/venv/bin/python -m pytest -q -p no:cacheprovider --timeout=900 --continue-on-collection-errors -n 6 2>&1 | tail -3",
+            rc2, out2 = sh("/venv/bin/python -m pytest -ra -q -p no:cacheprovider --timeout=900 --continue-on-collection-errors -n 6 2>&1 | tail -60",
                            cwd=wt, env=env, timeout=3600)
             m = re.search(r"(\d+) passed", out2)
-            ran["tests_patched"] = {"passed": int(m.group(1)) if m else None, "tail": out2[-300:],
-                                    "failed": bool(re.search(r"\d+ failed", out2))}
+            npass = int(m.group(1)) if m else None
+            failed_ids = re.findall(r"^FAILED (\S+)", out2, flags=re.M)
+            rerun = None
+            if failed_ids:
+                # the suite has a known xdist race (two VTK test classes share output.vtk in the cwd): re-run failures alone, sequentially
+                rc2b, out2b = sh(["/venv/bin/python", "-m", "pytest", "-q", "-p", "no:cacheprovider", "--timeout=900"] + failed_ids, cwd=wt, env=env, timeout=3600)
+                mb = re.search(r"(\d+) passed", out2b)
+                rerun = {"ids": failed_ids, "tail": out2b[-200:], "passed": int(mb.group(1)) if mb else 0}
+                if rc2b == 0 and npass is not None:
+                    npass += rerun["passed"]
+                    failed_ids = []
+            ran["tests_patched"] = {"passed": npass, "tail": out2[-200:], "failed": bool(failed_ids), "sequential_rerun_of_failures": rerun}
+            out2 = out2.strip().splitlines()[-1] + (" | rerun of failures alone: %s" % (rerun["tail"].strip().splitlines()[-1] if rerun else "n/a"))
             print("tests:", out2.strip().splitlines()[-1] if out2.strip() else "?")
         t0 = time.time()
         env2 = dict(os.environ, VERIF_REPO=wt, VERIF_SEED=a.seed)
